@@ -292,6 +292,10 @@ def run(ctx):
         per_start = [6.0]
         confirmed = set()
         for n, (mode, store, groups) in enumerate(its):
+            if len(confirmed) >= 10:
+                # enough distinct violations to report; do not spend the tier on replays
+                res['deadline_hit'] = True
+                break
             need = per_start[0] * (len(groups) + 1) * 1.3 + 10
             if time.time() + need > t_end:
                 res['deadline_hit'] = True
